@@ -91,12 +91,14 @@ class SymNCO(REINFORCE):
 
         # Main training loss
         if phase == "train":
-            # [batch_size, n_start, n_aug]
-            ll = unbatchify(out["log_likelihood"], (n_start, n_aug))
+            # The policy output is ordered (start, augment, batch): unbatchify to [batch_size, n_aug, n_start]
+            # so that dim 1 runs over the augmentations and the last dim over the starts of one instance
+            reward = unbatchify(out["reward"], (n_aug, n_start))
+            ll = unbatchify(out["log_likelihood"], (n_aug, n_start))
 
             # Calculate losses: problem symmetricity, solution symmetricity, invariance
-            loss_ps = problem_symmetricity_loss(reward, ll) if n_start > 1 else 0
-            loss_ss = solution_symmetricity_loss(reward, ll) if n_aug > 1 else 0
+            loss_ps = problem_symmetricity_loss(reward, ll) if n_aug > 1 else 0
+            loss_ss = solution_symmetricity_loss(reward, ll) if n_start > 1 else 0
             loss_inv = invariance_loss(out["proj_embeddings"], n_aug) if n_aug > 1 else 0
             loss = loss_ps + self.beta * loss_ss + self.alpha * loss_inv
             out.update(
